@@ -506,6 +506,8 @@ class Interp:
                         parts.append(K(format(val, spec or '')))
                     except (ValueError, TypeError) as e:
                         raise RaiseEx(type(e).__name__, 'format')
+                elif isinstance(spec, str) and v.conversion == -1 and self.models.format_bits(x, spec) is not None:
+                    parts.append(self.models.format_bits(x, spec))
                 elif isinstance(x, PBits) and x.view == 'str' and spec is None and v.conversion == -1:
                     parts.append(x)
                 elif spec is None and v.conversion == -1 and not isinstance(x, (Inst, ListV, DictV, SetV)):
@@ -514,6 +516,8 @@ class Interp:
                     parts.append(Term('fmt', x, K(spec if isinstance(spec, str) else None), K(v.conversion)))
         if all(isinstance(p, K) for p in parts):
             return K(''.join(str(p.v) for p in parts))
+        if len(parts) == 1 and isinstance(parts[0], self.models.BinText):
+            return parts[0]
         return Term('fstr', *parts)
 
     def ev_Tuple(self, n, fr):
